@@ -64,9 +64,9 @@ CTORS = {
 }
 FIELD_TYPES = {'modified_time': 'time', 'size': 'size', 'kind': 'skind', 'target': 'target'}
 CTX_FIELD_TYPES = {'files_same_time_behaviour': 'beh', 'dest_file_newer_behaviour': 'beh', 'dest_file_older_behaviour': 'beh'}
-EQ = {'target': 'target_eqb', 'skind': 'skind_eqb', 'beh': 'beh_eqb', 'time': 'time_eqb', 'size': 'size_eqb', 'bool': 'Bool.eqb'}
+EQ = {'str': 'str_eqb', 'target': 'target_eqb', 'skind': 'skind_eqb', 'beh': 'beh_eqb', 'time': 'time_eqb', 'size': 'size_eqb', 'bool': 'Bool.eqb'}
 CMP = {'time': 'time_cmp'}
-COQ_TYPE = {'entry': 'entry', 'bool': 'bool', 'beh': 'beh', 'path': 'path', 'creason': 'creason', 'dreason': 'dreason',
+COQ_TYPE = {'str': 'str', 'entry': 'entry', 'bool': 'bool', 'beh': 'beh', 'path': 'path', 'creason': 'creason', 'dreason': 'dreason',
             'map_entry': 'tmap entry', 'map_del': 'tmap (entry * dreason)', 'map_copy': 'tmap (entry * creason)',
             'option_creason': 'option creason', 'unit': 'unit'}
 # Rust parameter type text (whitespace removed, & / &mut / lifetimes dropped) -> type name
@@ -101,7 +101,7 @@ def strip_comments(src):
     return ''.join(out)
 
 
-TOKEN = re.compile(r'''\s*(?:(?P<str>"(?:\\.|[^"\\])*")|(?P<num>\d[\d_]*)|(?P<id>[A-Za-z_][A-Za-z0-9_]*)|(?P<op>::|=>|==|!=|&&|\|\||\.\.|->|\+=|-=|[{}()\[\],;:&!|.=<>_+\-*'#?]))''')
+TOKEN = re.compile(r'''\s*(?:(?P<chr>'(?:\\.|[^'\\])')|(?P<str>"(?:\\.|[^"\\])*")|(?P<num>\d[\d_]*)|(?P<id>[A-Za-z_][A-Za-z0-9_]*)|(?P<op>::|=>|==|!=|&&|\|\||\.\.|->|\+=|-=|[{}()\[\],;:&!|.=<>_+\-*'#?]))''')
 
 
 def lex(text):
@@ -114,7 +114,9 @@ def lex(text):
                 break
             raise NotInSubset('cannot tokenize near %r' % text[i:i + 30])
         i = m.end()
-        if m.group('str') is not None:
+        if m.group('chr') is not None:
+            toks.append(('chr', m.group('chr')))
+        elif m.group('str') is not None:
             toks.append(('str', m.group('str')))
         elif m.group('num') is not None:
             toks.append(('num', m.group('num')))
@@ -260,7 +262,14 @@ class P:
         return self.postfix(self.atom())
 
     def postfix(self, e):
-        while self.at('.'):
+        while self.at('.') or self.at('['):
+            if self.at('['):
+                self.i += 1
+                start = self.expr()
+                self.eat('..')
+                self.eat(']')
+                e = ('slice_from', e, start)        # e[start..]
+                continue
             self.i += 1
             name = self.ident()
             if self.at('('):
@@ -302,6 +311,9 @@ class P:
         if k in ('num', 'str'):
             self.i += 1
             return ('const', v)
+        if k == 'chr':
+            self.i += 1
+            return ('char', v)
         if k == 'id':
             path = [self.ident()]
             if self.at('!'):                                   # macro
@@ -459,6 +471,10 @@ class Translator:
             return env.get(e[1])
         if k == 'field' and e[1] == ('var', 'ctx'):
             return CTX_FIELD_TYPES.get(e[2])
+        if k == 'field' and e[1][0] == 'var' and env.get(e[1][1]) == 'rrp' and e[2] == 'inner':
+            return 'str'
+        if k == 'slice_from':
+            return self.typeof(e[1], env)
         if k == 'path':
             return CTORS[e[1]][2] if e[1] in CTORS else None
         if k == 'lit':
@@ -493,9 +509,27 @@ class Translator:
                 if e[2] not in fn.ctx_fields:
                     fn.ctx_fields.append(e[2])
                 return 'ctx_' + e[2]
+            if e[1][0] == 'var' and env.get(e[1][1]) == 'rrp' and e[2] == 'inner':
+                return e[1][1] + '_inner'
             raise NotInSubset('field access %s' % e[2])
+        if k == 'char':
+            c = e[1][1:-1]
+            if len(c) != 1 or c in '"\\':
+                raise NotInSubset('character literal %s' % e[1])
+            return '"%s"%%char' % c
         if k == 'method':
             recv, name, args = e[1], e[2], e[3]
+            if name == 'is_root' and not args and recv[0] == 'var' and env.get(recv[1]) == 'rrp':
+                return '(str_is_empty %s_inner)' % recv[1]
+            if name == 'is_empty' and not args and self.typeof(recv, env) == 'str':
+                return '(str_is_empty %s)' % self.pure(recv, env, fn)
+            if name == 'len' and not args and self.typeof(recv, env) == 'str':
+                return '(str_len %s)' % self.pure(recv, env, fn)
+            if name == 'starts_with' and len(args) == 1 and self.typeof(recv, env) == 'str':
+                if args[0][0] == 'char':
+                    return '(str_starts_with_char %s %s)' % (self.pure(args[0], env, fn), self.pure(recv, env, fn))
+                if self.typeof(args[0], env) == 'str':
+                    return '(str_starts_with %s %s)' % (self.pure(args[0], env, fn), self.pure(recv, env, fn))
             if name == 'clone' and not args:
                 return self.pure(recv, env, fn)
             if name == 'cmp' and len(args) == 1:
@@ -524,6 +558,15 @@ class Translator:
             return True
         return False
 
+    def may_panic(self, e):
+        """the expression contains a construct that can panic (a slice, a call of a translated function, panic!) and so needs the CPS path"""
+        if not isinstance(e, tuple):
+            return False
+        if e[0] == 'slice_from' or (e[0] == 'macro' and e[1] in ('panic', 'unreachable')) or self.has_call(e):
+            return True
+        return any(self.may_panic(x) for x in e[1:] if isinstance(x, tuple)) or \
+            any(self.may_panic(y) for x in e[1:] if isinstance(x, list) for y in x if isinstance(y, tuple))
+
     # ---- a value with possible effects (a call of a translated function), bound for the continuation
     def value(self, e, env, fn, k):
         """k(term, env) -> text"""
@@ -544,6 +587,18 @@ class Translator:
             return 'match T_%s %s with TPanic => TPanic | TVal %s => %s end' % (e[1], ' '.join(args), v, k(v, dict(env, **{v: RET_TYPES.get(callee.ret)})))
         if e[0] in ('match', 'if', 'block'):
             return self.tr(e, env, fn, k)
+        if e[0] == 'bin' and e[1] in ('&&', '||') and (self.may_panic(e[2]) or self.may_panic(e[3])):
+            # short-circuit evaluation: the right operand is only evaluated (and can only panic) when the left one does not decide
+            if e[1] == '&&':
+                return self.value(e[2], env, fn, lambda a, env2: '(if %s then %s else %s)' % (a, self.value(e[3], env2, fn, k), k('false', env2)))
+            return self.value(e[2], env, fn, lambda a, env2: '(if %s then %s else %s)' % (a, k('true', env2), self.value(e[3], env2, fn, k)))
+        if e[0] == 'slice_from':
+            # s[n..] panics when n is beyond the end or not on a character boundary
+            v = self.gensym('s')
+            return self.value(e[2], env, fn, lambda n, env2: self.value(e[1], env2, fn, lambda sv, env3:
+                '(match str_skip %s %s with None => TPanic | Some %s => %s end)' % (n, sv, v, k(v, dict(env3, **{v: 'str'})))))
+        if e[0] == 'method' and self.may_panic(e[1]) and e[2] == 'starts_with' and len(e[3]) == 1 and e[3][0][0] == 'char':
+            return self.value(e[1], env, fn, lambda r, env2: k('(str_starts_with_char %s %s)' % (self.pure(e[3][0], env2, fn), r), env2))
         if e[0] == 'macro':
             if e[1] == 'panic' or e[1] == 'unreachable':
                 return 'TPanic'
@@ -708,12 +763,15 @@ class Translator:
             if ptype == 'ctx':
                 for f in fn.ctx_fields:
                     params.append('(ctx_%s : %s)' % (f, COQ_TYPE[CTX_FIELD_TYPES[f]]))
+            elif ptype == 'rrp':
+                params.append('(%s_inner : str)' % pname)
             else:
                 params.append('(%s : %s)' % (pname, COQ_TYPE[ptype]))
         return 'Definition T_%s %s : tres (%s) :=\n  %s.' % (fn.name, ' '.join(params), coq_ret, body)
 
 
-def parse_params(text):
+def parse_params(text, param_types=None, self_type=None):
+    param_types = param_types or PARAM_TYPES
     out = []
     depth, cur, parts = 0, '', []
     for ch in text:
@@ -729,6 +787,11 @@ def parse_params(text):
     if cur.strip():
         parts.append(cur)
     for p in parts:
+        if re.sub(r"\s+|'[a-z_]+", '', p) in ('&self', 'self', '&mutself'):
+            if self_type is None:
+                raise NotInSubset('method with a self parameter')
+            out.append(('self', self_type, False))
+            continue
         name, _, ty = p.partition(':')
         name = name.strip()
         if name.startswith('mut '):
@@ -738,14 +801,14 @@ def parse_params(text):
         ty = re.sub(r"^&(mut)?", '', ty)
         ty = re.sub(r"^'[a-z_]+", '', ty)
         ty = re.sub(r"<.*>$", '', ty) if ty.startswith('SyncContext') else ty
-        if ty not in PARAM_TYPES:
+        if ty not in param_types:
             raise NotInSubset('parameter type %s' % ty)
-        t = PARAM_TYPES[ty]
+        t = param_types[ty]
         out.append((name, t, mut and t != 'ctx'))
     return out
 
 
-def translate(src_text, names=FUNCTIONS):
+def translate(src_text, names=FUNCTIONS, param_types=None, self_type=None):
     src = strip_comments(src_text)
     fns = {}
     tr = Translator(fns)
@@ -756,7 +819,7 @@ def translate(src_text, names=FUNCTIONS):
         ast = p.block()
         if p.peek()[0] != 'eof':
             raise NotInSubset('trailing tokens after the body of %s' % name)
-        fn = Fn(name, parse_params(params), re.sub(r'\s+', '', ret), ast)
+        fn = Fn(name, parse_params(params, param_types, self_type), re.sub(r'\s+', '', ret), ast)
         out.append(tr.function(fn))
         fns[name] = fn
     return out, fns
@@ -828,6 +891,36 @@ def generate(repo):
         return fallback_text(str(e)), False, 'not in the subset: %s' % e
     except (KeyError, IndexError, ValueError) as e:
         return fallback_text('translator error %r' % (e,)), False, 'translator error %r' % (e,)
+
+
+PATH_HEADER = '''(* GENERATED by tools/rs2coq.py from the source text of src/root_relative_path.rs - do not edit.
+   RootRelativePath::is_same_or_inside in the shape of the source (short-circuit operators, the slice that can panic).
+   Proofs/TransPathEq.v proves it equal to the component-wise prefix test of the model (Core.is_prefix). *)
+From RJ Require Import Base.Prelude Model.Core Model.TransSupport Model.RelPath.
+'''
+
+
+def generate_relpath(repo):
+    """-> (text of Gen/FactsTransPath.v, applicable, note)"""
+    try:
+        src = open(os.path.join(repo, 'src', 'root_relative_path.rs'), encoding='utf-8', errors='replace').read()
+        defs, fns = translate(src, ['is_same_or_inside'], param_types={'RootRelativePath': 'rrp'}, self_type='rrp')
+        if [(t, m) for _, t, m in fns['is_same_or_inside'].params] != [('rrp', False), ('rrp', False)] or fns['is_same_or_inside'].ret != 'bool':
+            raise NotInSubset('signature of is_same_or_inside changed')
+        return PATH_HEADER + '\nDefinition trans_path_applicable : bool := true.\n\n' + defs[0] + '\n', True, 'translated is_same_or_inside'
+    except (NotInSubset, KeyError, IndexError, ValueError, OSError) as e:
+        r = str(e).replace('*)', '* )')
+        return (PATH_HEADER + '''
+(* The translator does not apply to the current source: %s
+   The definition below is the model's own reading (so that the development still builds); the tie for this function is then
+   the differential one alone (unit driver `relpath`, kept-link families). *)
+Definition trans_path_applicable : bool := false.
+Definition T_is_same_or_inside (self_inner other_inner : str) : tres bool :=
+  if str_is_empty other_inner || str_eqb self_inner other_inner then TVal true
+  else if str_starts_with other_inner self_inner then
+    match str_skip (str_len other_inner) self_inner with None => TPanic | Some r => TVal (str_starts_with_char "/"%%char r) end
+  else TVal false.
+''' % r), False, 'not in the subset: %s' % e
 
 
 if __name__ == '__main__':
